@@ -21,3 +21,20 @@ func (vm *VirtualMachine) VerifSP() int { return vm.sp }
 
 // VerifHalt returns the current value of the halt flag.
 func (vm *VirtualMachine) VerifHalt() int32 { return vm.halt }
+
+// VerifOperand returns the i-th operand word (1-based) of the instruction about
+// to be dispatched, or -1 if it is out of range. Only valid inside VerifStep.
+func (vm *VirtualMachine) VerifOperand(i int) int {
+	if vm.activeCode == nil || vm.ip+i >= len(vm.activeCode.Instructions) {
+		return -1
+	}
+	return int(vm.activeCode.Instructions[vm.ip+i])
+}
+
+// VerifCodeLen returns the instruction count of the active code.
+func (vm *VirtualMachine) VerifCodeLen() int {
+	if vm.activeCode == nil {
+		return 0
+	}
+	return len(vm.activeCode.Instructions)
+}
